@@ -38,6 +38,44 @@ def init(b, mem):
     memory_id = mem
 
 
+def _verif_point(name, region):
+    """
+    Verification hook point. A no-op unless the environment variable
+    AEGEAN_VERIF=1 is set. When enabled:
+    - append "<monotonic_ns> <pid> <first row of stripe> <name>" to the file
+      named by AEGEAN_VERIF_BANE_LOG (single O_APPEND write per event)
+    - sleep and/or fail according to the json plan in AEGEAN_VERIF_BANE_PLAN:
+      {"delay": {"<name>:<row>": seconds}, "fault": {"<name>:<row>": "raise"|"exit"}}
+    """
+    if os.environ.get('AEGEAN_VERIF') != '1':
+        return
+    import json
+    import time
+
+    def emit(tag):
+        log = os.environ.get('AEGEAN_VERIF_BANE_LOG')
+        if log:
+            fd = os.open(log, os.O_WRONLY | os.O_APPEND | os.O_CREAT, 0o644)
+            os.write(fd, '{0} {1} {2} {3}\n'.format(
+                time.monotonic_ns(), os.getpid(), region[0], tag).encode())
+            os.close(fd)
+
+    emit(name)
+    plan = os.environ.get('AEGEAN_VERIF_BANE_PLAN')
+    if plan:
+        plan = json.loads(plan)
+        key = '{0}:{1}'.format(name, region[0])
+        delay = plan.get('delay', {}).get(key)
+        if delay:
+            time.sleep(delay)
+            emit(name + ':resume')
+        fault = plan.get('fault', {}).get(key)
+        if fault == 'raise':
+            raise RuntimeError('AEGEAN_VERIF injected fault at ' + key)
+        if fault == 'exit':
+            os._exit(17)
+
+
 def sigmaclip(arr, lo, hi, reps=10):
     """
     Perform sigma clipping on an array, ignoring non finite values.
@@ -157,6 +195,7 @@ def sigma_filter(filename, region, step_size, box_size, shape, domask,
     """
 
     ymin, ymax = region
+    _verif_point('start', region)
     logging.debug('rows {0}-{1} starting at {2}'.format(ymin,
                   ymax, strftime("%Y-%m-%d %H:%M:%S", gmtime())))
 
@@ -242,17 +281,20 @@ def sigma_filter(filename, region, step_size, box_size, shape, domask,
     ifunc = RegularGridInterpolator((rows, cols), vals)
     interp_bkg = np.array(ifunc((gr, gc)), dtype=np.float64)
     ibkg[ymin:ymax, :] = interp_bkg
+    _verif_point('bkg_written', region)
     del ifunc, interp_bkg
     logging.debug(" ... done writing bkg")
 
     # wait for all to complete
     i = barrier.wait()
+    _verif_point('after_barrier1', region)
     if i == 0:
         barrier.reset()
 
     logging.debug("background subtraction")
     data[0 + ymin - data_row_min: data.shape[0] -
          (data_row_max - ymax), :] -= ibkg[ymin:ymax, :]
+    _verif_point('bkg_subtracted', region)
     logging.debug(".. done ")
 
     # reset/recycle the vals array
@@ -270,12 +312,14 @@ def sigma_filter(filename, region, step_size, box_size, shape, domask,
     ifunc = RegularGridInterpolator((rows, cols), vals)
     interp_rms = np.array(ifunc((gr, gc)), dtype=np.float64)
     irms[ymin:ymax, :] = interp_rms
+    _verif_point('rms_written', region)
     del ifunc, interp_rms
     logging.debug(" .. done writing rms")
 
     if domask:
         # wait for all to complete
         i = barrier.wait()
+        _verif_point('after_barrier2', region)
         if i == 0:
             barrier.reset()
 
@@ -286,6 +330,7 @@ def sigma_filter(filename, region, step_size, box_size, shape, domask,
         ibkg[ymin:ymax, :][mask] = np.nan
         irms[ymin:ymax, :][mask] = np.nan
         logging.debug("... done applying mask")
+    _verif_point('end', region)
     logging.debug('rows {0}-{1} finished at {2}'.format(ymin,
                   ymax, strftime("%Y-%m-%d %H:%M:%S", gmtime())))
     return
